@@ -434,7 +434,7 @@ def run_case(nb, case, path, idx):
                 ints[t] = int(aa)
         except Exception:     # noqa
             pass
-    lens = {t: np.asarray(a).shape[0] for t, a in tok.meta.items() if isinstance(a, np.ndarray) and np.asarray(a).ndim == 1 and np.asarray(a).dtype.kind == 'f'}
+    lens = {t: np.asarray(a).shape[0] for t, a in tok.meta.items() if isinstance(a, np.ndarray) and np.asarray(a).ndim == 1 and np.asarray(a).dtype.kind in 'fiu'}
     i = idx
     coq.append('Definition anyc%d (t : tok) : bool := %s false.' % (i, ''.join('if Pos.eqb t %s then %s else ' % (P(t), 'true' if a.any() else 'false') for t, a in bools.items())))
     coq.append('Definition allc%d (t : tok) : bool := %s true.' % (i, ''.join('if Pos.eqb t %s then %s else ' % (P(t), 'true' if a.all() else 'false') for t, a in bools.items())))
